@@ -189,6 +189,10 @@ def profile(rng):
     p.getter_probes = True
     p.n_random_probes = 3
     p.time_probes = False
+    if len(p.meas) == 4 and rng.random() < 0.25:
+        from .. import gen as _gen
+
+        _gen.make_wild(p, rng)  # names, keys and values from the pool of awkward strings
     return p
 
 
